@@ -3,6 +3,7 @@ package spvval
 import (
 	"fmt"
 	"os"
+	"sort"
 	"strings"
 	"testing"
 
@@ -144,6 +145,7 @@ func TestProbeFuzz(t *testing.T) {
 		t.Skip()
 	}
 	seed := uint64(12345)
+	fmt.Sscanf(os.Getenv("SPVVAL_SEED"), "%d", &seed)
 	rnd := func() uint64 { seed ^= seed << 13; seed ^= seed >> 7; seed ^= seed << 17; return seed }
 	total, internal := 0, 0
 	for _, sh := range loadCorpus(t) {
@@ -157,9 +159,29 @@ func TestProbeFuzz(t *testing.T) {
 		if err != nil {
 			continue
 		}
-		words := len(bin) / 4
 		for k := 0; k < n; k++ {
+			words := len(bin) / 4
 			c := append([]byte(nil), bin...)
+			if k%3 == 0 { // structural corruption: remove / duplicate / swap / move instructions
+				tm := decodeT(t, bin)
+				for j := uint64(0); j <= rnd()%3; j++ {
+					a, b := int(rnd()%uint64(len(tm.insts))), int(rnd()%uint64(len(tm.insts)))
+					switch rnd() % 4 {
+					case 0:
+						tm.remove(a)
+					case 1:
+						tm.insert(b, tm.insts[a])
+					case 2:
+						tm.insts[a], tm.insts[b] = tm.insts[b], tm.insts[a]
+					default:
+						x := tm.insts[a]
+						tm.remove(a)
+						tm.insert(b%len(tm.insts), x)
+					}
+				}
+				c = tm.encode()
+				words = len(c) / 4
+			}
 			for j := uint64(0); j <= rnd()%3; j++ {
 				w := 5 + int(rnd()%uint64(words-5))
 				var val uint32
@@ -195,5 +217,73 @@ func TestProbeFuzz(t *testing.T) {
 	fmt.Printf("fuzz: %d corrupted modules, %d internal panics\n", total, internal)
 	if internal > 0 {
 		t.Fail()
+	}
+}
+
+// TestProbeSurvivors: which single-word corruptions go unnoticed? (SPVVAL_SURV=1)
+func TestProbeSurvivors(t *testing.T) {
+	if os.Getenv("SPVVAL_SURV") == "" {
+		t.Skip()
+	}
+	seed := uint64(777)
+	rnd := func() uint64 { seed ^= seed << 13; seed ^= seed >> 7; seed ^= seed << 17; return seed }
+	surv := map[string]int{}
+	tot := map[string]int{}
+	for _, sh := range loadCorpus(t) {
+		m, err := lowerCorpus(sh)
+		if err != nil {
+			continue
+		}
+		o, _ := corpusOptions(sh)
+		o.Version = spirv.Version{Major: 1, Minor: 3}
+		bin, err := generate(m, o)
+		if err != nil {
+			continue
+		}
+		rm := readModule(bin, map[string]int{})
+		for k := 0; k < 200; k++ {
+			in := rm.Insts[rnd()%uint64(len(rm.Insts))]
+			if len(in.Words) < 2 {
+				continue
+			}
+			wi := 1 + int(rnd()%uint64(len(in.Words)-1))
+			w := in.Pos + wi
+			old := rm.Words[w]
+			// replace by another id-ish value: a different word taken from the same instruction kind range
+			val := uint32(1 + rnd()%uint64(rm.Hdr.Bound-1))
+			if val == old {
+				continue
+			}
+			c := append([]byte(nil), bin...)
+			c[4*w], c[4*w+1], c[4*w+2], c[4*w+3] = byte(val), byte(val>>8), byte(val>>16), byte(val>>24)
+			key := fmt.Sprintf("%s word %d", in.name(), wi)
+			tot[key]++
+			if len(Validate(c, Options{}).Findings) == 0 {
+				surv[key]++
+			}
+		}
+	}
+	type kv struct {
+		k    string
+		s, t int
+	}
+	var all []kv
+	for k, s := range surv {
+		all = append(all, kv{k, s, tot[k]})
+	}
+	sort.Slice(all, func(a, b int) bool { return all[a].s > all[b].s })
+	st, tt := 0, 0
+	for _, v := range tot {
+		tt += v
+	}
+	for _, v := range surv {
+		st += v
+	}
+	fmt.Printf("survivors %d of %d\n", st, tt)
+	for i, e := range all {
+		if i > 60 {
+			break
+		}
+		fmt.Printf("%5d / %5d  %s\n", e.s, e.t, e.k)
 	}
 }
